@@ -158,6 +158,11 @@ func resolveProllyConflicts(ctx *sql.Context, tbl *doltdb.Table, tblName doltdb.
 		}
 
 		// update secondary indexes
+		if len(ourRow) == 0 && len(theirRow) == 0 {
+			// the row is absent on both sides (e.g. deleted on both sides of a keyless table),
+			// so there is no index entry to add or remove
+			continue
+		}
 		for _, mutIdx := range mutIdxs {
 			if len(ourRow) == 0 {
 				err = mutIdx.InsertEntry(ctx, cnfArt.Key, theirRow)
